@@ -66,6 +66,13 @@ def equiMask (N L : Int) (a : Rat) (off : Int) : List Bool :=
 /-- realised number of sampled columns of one frame -/
 def equiCount (N L : Int) (R : Rat) (off : Int) : Nat := countTrue (equiMask N L (adjAccel N R L) off)
 
+/-- what the code does with an infeasible pair before any grid is built: the Python float division
+raises `ZeroDivisionError` when `L·R = N`; `rng.randint(0, high)` raises `ValueError` when
+`high = round(adjusted) ≤ 0` (negative or tiny adjusted acceleration) -/
+def equiReject (N L : Int) (R : Rat) : Option String :=
+  if (L : Rat) * R - N = 0 then some "ZeroDivisionError"
+  else if offsetBound (adjAccel N R L) ≤ 0 then some "ValueError" else none
+
 /-- the same count computed from the grid alone: ACS columns plus grid points outside the ACS block
 (equal to `equiCount` whenever the grid is duplicate free and inside the row — `equi_count_decomp`) -/
 def equiCountFast (N L : Int) (a : Rat) (off : Int) : Nat :=
